@@ -4,7 +4,7 @@
    parse_table on a loaded table), Model/Slicer.v (the JSON text slicer of `biom subset-table`). *)
 From Coq Require Import List Arith ZArith Bool Permutation.
 From BiomV Require Import Base.Tree Base.ListUtil Base.Matrix Model.Table Model.Subset Model.Slicer
-  Proofs.SubsetProofs Proofs.SlicerProofs Proofs.C14Witness.
+  Proofs.SubsetProofs Proofs.SlicerProofs Proofs.C14Witness Gen.StrPrelude Gen.SlicerGen Proofs.GenBridgeSlicerProofs.
 Import ListNotations.
 
 (* ================================================================== the reference: read-all-then-filter *)
@@ -270,3 +270,15 @@ Theorem parse_key_first_occurrence_refuted :
   exists doc, json_loads doc <> None /\ direct_parse_key doc K_COLUMNS = ROk columns_is_1.
 Proof. exists doc_mdkey. split; [exact (proj2 (proj2 (proj2 wit_docs_valid)))|exact wit_mdkey]. Qed.
 Print Assumptions parse_key_first_occurrence_refuted.
+
+(* ================================================================== tie to the source (tools/py2v, string mode) *)
+(* Gen/SlicerGen.v is regenerated from biom/parse.py at the start of every check.  The generated
+   `direct_parse_key_gen` follows the source statement by statement (index arithmetic in Z, every
+   s[i] with its IndexError, the three scanning loops and the whitespace loop as recursion on fuel
+   len(s) + 1, the bracket stack as a Python list).  For EVERY string and key it never runs out of
+   fuel (`out_res` is None only for OutOfFuel) and gives exactly what the hand-written
+   `direct_parse_key` of Model/Slicer.v gives, the IndexError outcome included. *)
+Theorem direct_parse_key_is_source : forall s key,
+  out_res (direct_parse_key_gen s key) = Some (direct_parse_key s key).
+Proof. exact direct_parse_key_bridge. Qed.
+Print Assumptions direct_parse_key_is_source.
